@@ -34,6 +34,11 @@ NEEDS = {
  "C15c_batch_run_until_stalled": "run_until_stalled with two queued tasks where the earlier one wakes the later one again (or re-enters the executor) during the same run",
  "C17c_negation_lost_before_alias": "`!` followed by a word that is an alias name",
  "C18c_line_chunk_splits_utf8": "a command line longer than 4096 bytes, read through a file descriptor, with a multi-byte character across the 4096-byte boundary",
+ "C01c_nested_quote_resets_will_split": "a nested double-quoted part inside a braced expansion inside outer double quotes, followed by $* in the same outer quotes, with >= 2 positional parameters",
+ "C02c_loop_status_after_continue": "a while/until loop in which an earlier iteration ends with a non-zero status and the last iteration ends through `continue`",
+ "C03c_shift_additive_precedence": "<< or >> next to a binary + or - without parentheses",
+ "C04c_case_broken_alternative": "a case item whose earlier alternative is a pattern that does not compile and whose later alternative matches",
+ "C09c_dot_script_fd_not_cloexec": "descriptors 3..9 all open when a script is sourced with `.`",
  "C19c_append_after_truncate": "an O_APPEND descriptor kept open, written, the file truncated through another open, then written again",
 }
 for d in sorted(glob.glob('/verif/seeded/*/')):
